@@ -862,7 +862,7 @@ class Transaction:
             if sign:
                 await tx.sign(funding_accounts)
 
-        except Exception as e:
+        except BaseException as e:  # also a cancelled build must give its reserved inputs back
             log.exception('Failed to create transaction:')
             await ledger.release_tx(tx)
             raise e
